@@ -22,7 +22,7 @@ func (r *rng) intn(n int) int {
 	}
 	return int(r.next() % uint64(n))
 }
-func (r *rng) chance(p float64) bool { return float64(r.next()%1000000)/1000000.0 < p }
+func (r *rng) chance(p float64) bool   { return float64(r.next()%1000000)/1000000.0 < p }
 func (r *rng) pick(xs []string) string { return xs[r.intn(len(xs))] }
 
 type profile struct {
@@ -54,6 +54,23 @@ var profiles = map[string]profile{
 }
 
 var mapKeys = []string{"a", "b", "c", "d"}
+
+// keyPool: the conflict-biased profile concentrates all replicas on two keys (so that put/remove/put and
+// remove/remove/put chains by different replicas on ONE key are common), the others spread over four
+func (g *gen) keyPool() []string {
+	if g.p.name == "conf" {
+		return mapKeys[:2]
+	}
+	return mapKeys
+}
+
+// putShare: puts out of 10 object/map writes (the rest are removes)
+func (g *gen) putShare() int {
+	if g.p.name == "conf" {
+		return 5
+	}
+	return 6
+}
 
 type gen struct {
 	r     *rng
@@ -125,7 +142,7 @@ func (g *gen) genCall(i int, inTx bool) (string, J) {
 		}
 		return "inc", J{"d": d}
 	case "map":
-		k := g.r.pick(mapKeys)
+		k := g.r.pick(g.keyPool())
 		if read {
 			if g.r.intn(3) == 0 {
 				return "msize", J{}
@@ -142,7 +159,7 @@ func (g *gen) genCall(i int, inTx bool) (string, J) {
 				return "mremove", J{"k": ""}
 			}
 		}
-		if g.r.intn(10) < 6 {
+		if g.r.intn(10) < g.putShare() {
 			return "mput", J{"k": k, "v": g.value(0)}
 		}
 		return "mremove", J{"k": k}
